@@ -24,9 +24,10 @@ fn vk_c07_walk_between() {
 }
 
 //@ obligation: C07.tables.between_init_writes
+//@ tier: thorough
 //@ domain: complete
 //@ functions: chess/movegen/tables/between.rs::init, chess/movegen/tables/between.rs::between
-//@ timeout: 600
+//@ timeout: 1800
 //@ mem_gb: 6
 //@ note: the real `init` is run with the two `for .. in Bitboard::FULL` iterators replaced by their contract (C07.bitboard.square_iterator) in one-shot form (each loop yields ONE arbitrary square and stops) and with the callee generate_squares_between replaced by an arbitrary deterministic function (its own contract is C07.walk.between). Whatever pair (s1, s2) the loops visit, the only table cell written is [s1][s2] and it receives callee(s1,s2).unwrap_or(EMPTY); the lookup `between` reads exactly that cell.
 //@ assumes: loop iterations of `init` are independent (no state carried between iterations other than the table cells written) -- by inspection: the loop bodies declare all their locals
